@@ -64,11 +64,15 @@ pub struct Body {
 	pub yield_mid: bool,
 	/// panic at the end of the section (with the guard alive / inside the closure)
 	pub panic: bool,
+	/// call clear_poison on the target itself inside the section (the holder "repairs" the data)
+	#[serde(default)]
+	pub clear: bool,
 }
 impl Body {
-	pub const NONE: Body = Body { touch: false, yield_mid: false, panic: false };
-	pub const TOUCH: Body = Body { touch: true, yield_mid: true, panic: false };
-	pub const PANIC: Body = Body { touch: true, yield_mid: false, panic: true };
+	pub const NONE: Body = Body { touch: false, yield_mid: false, panic: false, clear: false };
+	pub const TOUCH: Body = Body { touch: true, yield_mid: true, panic: false, clear: false };
+	pub const PANIC: Body = Body { touch: true, yield_mid: false, panic: true, clear: false };
+	pub const CLEAR: Body = Body { touch: true, yield_mid: false, panic: false, clear: true };
 }
 
 #[derive(Clone, Debug, PartialEq, Eq, Hash, PartialOrd, Ord, Serialize, Deserialize)]
@@ -77,6 +81,8 @@ pub enum Step {
 	IsPoisoned(usize),
 	ClearPoison(usize),
 	Debug(usize),
+	/// try-acquire the target while the thread's next raw try operation panics (kills that lock)
+	FaultyTry { target: usize, write: bool },
 }
 
 #[derive(Clone, Debug, Serialize, Deserialize)]
@@ -102,6 +108,7 @@ impl Program {
 					Step::IsPoisoned(t) => s += &format!(" {}.is_poisoned", self.specs[*t].describe()),
 					Step::ClearPoison(t) => s += &format!(" {}.clear_poison", self.specs[*t].describe()),
 					Step::Debug(t) => s += &format!(" {}.debug", self.specs[*t].describe()),
+					Step::FaultyTry { target, write } => s += &format!(" {}.{}!raw-fault", self.specs[*target].describe(), Flavour::Try.api(*write)),
 				}
 				s += ";";
 			}
@@ -189,6 +196,12 @@ fn run_section(t: &Target<'_>, write: bool, body: Body, w: &str, slots: Vec<Slot
 					rt::violation("C02", format!("changed-under-read|{}", rt::what_key(w)), format!("L{} changed from {} to {} inside a shared section of `{}`", s.leaf, reads[i], v, w));
 				}
 			}
+		}
+	}
+	if body.clear {
+		t.coll.clear_poison();
+		if let Some(f) = crate::menu::target_flag(&t.spec, t.index) {
+			rt::pm_clear(f);
 		}
 	}
 	check_all_held(t, write, w, "closure-exit");
@@ -386,7 +399,29 @@ pub fn acquire(t: &Target<'_>, write: bool, flavour: Flavour, body: Body, key: T
 						}
 					}
 				}
-				_ => resume_unwind(p),
+				_ => {
+					let msg = p.downcast_ref::<&str>().map(|s| s.to_string()).or_else(|| p.downcast_ref::<String>().cloned()).unwrap_or_default();
+					if msg.contains("has been killed") && rt::any_fault_fired() {
+						// the target contains a lock that a raw fault killed: refusing by panicking is the
+						// specified behaviour (C12); the call must not keep anything
+						rt::end_call();
+						rt::observe(0xdead);
+						check_released(&w, "C03", "unwound-while-holding");
+						if let Some(k) = lent_key {
+							k
+						} else {
+							match ThreadKey::get() {
+								Some(k) => k,
+								None => {
+									rt::violation("C06", format!("key-lost|{}", rt::what_key(&w)), format!("after `{}` refused a killed lock the thread's key is not obtainable", w));
+									resume_unwind(Box::new(rt::AbortToken))
+								}
+							}
+						}
+					} else {
+						resume_unwind(p)
+					}
+				}
 			}
 		}
 	};
@@ -427,6 +462,32 @@ pub fn run_thread(tid: usize, steps: &[Step], targets: &[Target<'_>]) {
 				if let Some(f) = crate::menu::target_flag(&tg.spec, *t) {
 					rt::pm_clear(f);
 				}
+			}
+			Step::FaultyTry { target, write } => {
+				let t = &targets[*target];
+				let w = what(t, Flavour::Try.api(*write));
+				rt::set_fault_next_try(true);
+				let r = catch_unwind(AssertUnwindSafe(|| acquire(t, *write, Flavour::Try, Body::NONE, key, (tid * 100 + pc) as u32).0));
+				let unfired = rt::set_fault_next_try(false);
+				key = match r {
+					Ok(k) => k,
+					Err(p) => {
+						if rt::aborted() || !p.is::<rt::FaultToken>() {
+							resume_unwind(p);
+						}
+						rt::end_call();
+						rt::observe(0xfa);
+						check_released(&w, "C12", "leak-after-raw-fault");
+						match ThreadKey::get() {
+							Some(k) => k,
+							None => {
+								rt::violation("C12", format!("key-lost-after-raw-fault|{}", rt::what_key(&w)), format!("after a raw lock operation panicked in `{}` the thread's key is not obtainable", w));
+								resume_unwind(Box::new(rt::AbortToken))
+							}
+						}
+					}
+				};
+				let _ = unfired;
 			}
 			Step::Debug(t) => {
 				rt::begin_call(CallKind::NonAcquiring, false, what(&targets[*t], "Debug"));
